@@ -192,6 +192,15 @@ def condition(sc, v):
 _TAG = re.compile(r"(?i)</?[a-z][a-z0-9,_=;-]*>|</>")
 
 
+# what IS style markup: tags of the default style set, inline styles, closing forms.  A word in angle
+# brackets that is none of these (<locals>, <module>, <lambda>, <unknown>) is text.
+_STYLE_TAG = re.compile(r"(?i)</?(?:error|info|comment|question|warning|b|u|c1|c2|hl)>|</?(?:fg|bg|options)=[^>]*>|</>")
+
+
+def _ws(s):
+    return re.sub(r"[ \t\n]+", " ", s).strip(" ")
+
+
 def _strip_tags(s):
     return _TAG.sub("", re.sub(r"\\+<", "<", s))
 
@@ -459,9 +468,13 @@ def _run(sc, res, log, store, r):
         name = type(exc).__name__
         if name not in text:
             res.violate("name_missing", "full", "class name %r not in the rendering %r" % (name, text[:200]))
+    plain_msg = not _STYLE_TAG.search(msg) and "\\<" not in msg
+    if plain_msg and "<" in msg:
+        res.probe("angle_bracket_words_in_message")
     for line in msg.split("\n"):
-        want = _norm(line)
-        if want and want not in ntext:
+        # a message without style markup is shown as it is - words in angle brackets included
+        want, hay = (_ws(line), _ws(text)) if plain_msg else (_norm(line), ntext)
+        if want and want not in hay:
             res.violate("message_missing", "simple" if sc["simple"] else "full",
                         "message line %r not in the rendering (%r ...)" % (line[:80], text[:300]))
             break
